@@ -275,6 +275,73 @@ def _cr_spec(cfg, i, path):
     return path.value in ('same', 'error')
 
 
+# ------------------------------------------------------------------ the same for a many-to-many collection, reloaded through either end and through prefetch()
+M2M_OBSERVE = {
+    'iterate': lambda M, p: sorted(t.id for t in p.tags),
+    'len_then_iterate': lambda M, p: (len(p.tags), sorted(t.id for t in p.tags))[1],
+    'copy': lambda M, p: sorted(t.id for t in p.tags.copy()),
+    'through the other end': lambda M, p: sorted(t.id for t in M.Tag.select() if p in t.parents),
+    'prefetched': lambda M, p: (M.Parent.select().prefetch(M.Parent.tags)[:], sorted(t.id for t in p.tags))[1],
+}
+M2M_CHANGES = {
+    'link added': 'insert into Parent_Tag(parent, tag) values (1, 3)',
+    'link removed': 'delete from Parent_Tag where parent = 1 and tag = 2',
+    'link replaced': 'update Parent_Tag set tag = 3 where parent = 1 and tag = 2',
+    'a link of another parent added': 'insert into Parent_Tag(parent, tag) values (2, 1)',
+    'nothing': 'select 1',
+}
+M2M_RELOADS = {
+    'prefetch of the collection': lambda M, p: M.Parent.select().prefetch(M.Parent.tags)[:],
+    'prefetch of the other end': lambda M, p: M.Tag.select().prefetch(M.Tag.parents)[:],
+    'the other end read tag by tag': lambda M, p: [list(t.parents) for t in M.Tag.select().order_by(M.Tag.id)],
+    'load()': lambda M, p: p.tags.load(),
+    'query over the link table': lambda M, p: orm.select((x, t) for x in M.Parent for t in x.tags)[:],
+    'prefetch of one object': lambda M, p: M.Parent.select(lambda x: x.id == 1).prefetch(M.Parent.tags)[:],
+}
+
+
+def _m2_configs(tier):
+    return [dict(observe=o, change=c, reload=r) for o in M2M_OBSERVE for c in M2M_CHANGES for r in M2M_RELOADS]
+
+
+def _m2_case(cfg, values):
+    M = rmodel()
+
+    def setup(run): _reset()
+    def teardown(run):
+        try: orm.rollback()
+        except Exception: pass
+        _reset()
+
+    def call():
+        with orm.db_session:
+            for t in ('Parent_Tag', 'Child', 'Parent', 'Tag'): M.db.execute('delete from "%s"' % t)
+            M.db.execute("insert into Parent(id) values (1), (2)"); M.db.execute("insert into Tag(id) values (1), (2), (3)")
+            M.db.execute("insert into Parent_Tag(parent, tag) values (1, 1), (1, 2), (2, 3)")
+        with orm.db_session:
+            p = M.Parent[1]
+            first = M2M_OBSERVE[cfg['observe']](M, p)
+            if first != [1, 2]: return 'the first read is wrong: %r' % (first,)
+            M.db.execute(M2M_CHANGES[cfg['change']])              # a change committed by somebody else, as this session's next reload will see it
+            try:
+                M2M_RELOADS[cfg['reload']](M, p)
+                # the same observation again; and, where the collection itself was read, its members and what the other end says about them
+                again = sorted(t.id for t in M.Tag.select() if p in t.parents) if cfg['observe'] == 'through the other end' else sorted(t.id for t in p.tags)
+                if again != first: outcome = 'changed silently: %s -> %s' % (first, again)
+                elif cfg['observe'] != 'through the other end' and sorted(t.id for t in M.Tag.select() if p in t.parents) != first: outcome = 'the other end now disagrees with the members read: %s' % (first,)
+                else: outcome = 'same'
+            except core.UnrepeatableReadError:
+                outcome = 'error'
+            orm.rollback()
+            return outcome
+    return Case(call, {}, [], setup, teardown)
+
+
+def _m2_spec(cfg, i, path):
+    if path.outcome != 'ret': return False
+    if cfg['change'] == 'nothing': return path.value == 'same'
+    return path.value in ('same', 'error')          # (a link of ANOTHER parent may be reported too: the prefetch observed every parent's collection)
+
 
 # ------------------------------------------------------------------ an observed attribute value is never silently replaced (bounded, end to end)
 _AM = None
@@ -381,6 +448,9 @@ CONTRACTS = [
                                      'pony.orm.core:Set.db_reverse_remove', 'pony.orm.core:Attribute.db_set'], _cr_configs, _cr_case,
              [('a_reload_never_changes_an_observed_collection_silently', _cr_spec)], level='bounded',
              bound='one one-to-many collection; 6 ways of observing it (however it became loaded), 4 foreign changes seen by the next reload'),
+    Contract('observed_m2m_collection', ['pony.orm.core:Set.prefetch_load_all', 'pony.orm.core:Set.load', 'pony.orm.core:Set.db_reverse_add', 'pony.orm.core:SetInstance.__iter__',
+                                         'pony.orm.core:SetInstance.__contains__'], _m2_configs, _m2_case, [('observed_members_never_change_silently', _m2_spec)], level='bounded',
+             bound='one many-to-many collection of 2 members; 5 ways of observing x 5 foreign changes of the link table x 6 ways of reloading (prefetch of either end, load, the other end tag by tag, a join)'),
     Contract('observed_attribute', ['pony.orm.core:Attribute.__get__', 'pony.orm.core:Entity._db_set_', 'pony.orm.core:Entity._update_dbvals_', 'pony.orm.core:Entity._save_created_',
                                     'pony.orm.core:Entity._save_updated_', 'pony.orm.core:Entity.load', 'pony.orm.core:Attribute.load'], _av_configs, _av_case,
              [('a_later_read_returns_the_observed_value_or_fails', _av_spec)], level='bounded',
